@@ -95,14 +95,26 @@ func (r *c19rig) ensure(n int, rnd *rand.Rand) error {
 		}
 	}
 	// close the surplus (client-side disconnect)
+	var closing []*c19client
 	for len(live) > n {
 		c := live[len(live)-1]
 		live = live[:len(live)-1]
 		c.sess.Close()
+		closing = append(closing, c)
 	}
 	r.cl = live
 	have := len(live)
 	r.mu.Unlock()
+	// their accept loops must have noticed (and counted) the end before the next
+	// case reads the counter of ended sessions
+	core.WaitUntil(20*time.Second, time.Millisecond, func() bool {
+		for _, c := range closing {
+			if !c.closed.Load() {
+				return false
+			}
+		}
+		return true
+	})
 	for ; have < n; have++ {
 		ep := fmt.Sprintf("ep%d", rnd.Intn(4))
 		ctx, cancel := context.WithTimeout(context.Background(), 10*time.Second)
